@@ -30,6 +30,7 @@ import asyncio
 import hashlib
 import itertools
 import json
+import os
 import pickle
 import re
 import time
@@ -52,6 +53,8 @@ REQUIRED = [
     'EdbVerif.C17.C17_remote_record_weak', 'EdbVerif.C17.C17_remote_record_counterexample_status2',
     'EdbVerif.C17.C17_remote_used_counterexample_failed_sync',
     'EdbVerif.C17.C17_memo_faithful', 'EdbVerif.C17.C17_memo_counterexample',
+    'EdbVerif.C17.C17_used_counterexample_lost_request',
+    'EdbVerif.C17.C17_remote_used_counterexample_lost_request',
 ]
 
 KINDS = {'S': 'bytes', 'G': 'bytes', 'R': 'map', 'C': 'map', 'Y': 'map', 'P': 'state'}
@@ -346,6 +349,14 @@ class Gen:
             return 'spf'
         if x < 0.29 and (tx or self.regime != 'nostatus2'):
             return 'unp'
+        # replies that never reach BaseWorker.call's status dispatch (undecodable on the server / the
+        # caller was cancelled in flight), and requests the worker cannot even unpickle
+        if x < 0.33 and (tx or self.regime != 'nostatus2'):
+            return 'rux'
+        if x < 0.36 and not tx and self.regime != 'nostatus2':
+            return 'cancel'
+        if x < 0.39 and not tx and self.regime == 'wild':
+            return 'req'
         return 'ok'
 
     def next(self):
@@ -483,6 +494,11 @@ async def run_history(loop, spec, rng, source):
             nlog = [len(x) for x in rig.rec_logs]
             dbname = f"db{step['db']}"
             plan = (step['out'], step['ns'])
+            if step['out'] == 'req':
+                plan = R.BoomOnLoad('compile-arg')     # worker_proc.worker cannot unpickle the request
+            if step['out'] == 'cancel':
+                plan = ('ok', step['ns'])
+                rig.cancel_next = True
             res, ret_state = 'ok', None
             try:
                 if step['op'] == 'C':
@@ -494,8 +510,11 @@ async def run_history(loop, spec, rng, source):
                         dbname, toks.obj[step['s']], 7, None if step['p'] is None else toks.obj[step['p']],
                         0, plan)
                 ret_state = r[1]
+            except asyncio.CancelledError:
+                res = 'cancelled'
             except Exception as e:   # noqa: BLE001 — every failure of the real code is an observation
                 res = classify_exc(e, state_mod, R)
+            rig.cancel_next = False
             rig.give_back(held, step['fronts'])
             if len(rig.wire) != nwire + 1:
                 res = f'other:wire-count-{len(rig.wire) - nwire}'
@@ -508,7 +527,10 @@ async def run_history(loop, spec, rng, source):
                 toks.register(step['ns'], 'P', 'n', step['ns'], ret_state)
                 if isinstance(source, Gen):
                     source.returned(step['ns'])
-            meth, args = pickle.loads(raw)
+            try:
+                meth, args = pickle.loads(raw)
+            except R.PayloadBoom:
+                meth, args = None, None      # unreadable for us as for the worker ('req' steps)
             new_log = rig.rec_logs[w][nlog[w]:]
             for j in range(nw):
                 if j != w and len(rig.rec_logs[j]) != nlog[j]:
@@ -516,17 +538,23 @@ async def run_history(loop, spec, rng, source):
             used = new_log[0][1:] if new_log else None
             now = snap_real(rig, toks)
             # ----- protocol line + canonical real observation
+            # model: a reply that is lost / unreadable on the server = status 2 (no acknowledgement,
+            # worker done, _last_pickled_state forgotten); only the exception class differs
+            mout = 'unp' if step['out'] in ('rux', 'cancel') else step['out']
+            res_cmp = 'serErr' if (step['out'] == 'rux' and res == 'unpickleErr' and used is not None) else res
+            if step['out'] == 'cancel' and res == 'cancelled':
+                res_cmp = None        # the caller never sees the outcome (model: serErr or syncFail)
             if step['op'] == 'C':
                 out.lines.append('C %d %d %d %d %d %d %d %s %d' % (
                     w, step['db'], step['s'], step['r'], step['g'], step['c'], step['y'],
-                    step['out'], step['ns']))
-                sent = tuple(wire_cid(a, R) for a in args[1:6])
+                    mout, step['ns']))
+                sent = None if args is None else tuple(wire_cid(a, R) for a in args[1:6])
                 robs = {'sent': sent, 'cb': rig.cb_log[ncb] if len(rig.cb_log) > ncb else None,
-                        'res': res, 'used': used, 'state': now}
+                        'res': res_cmp, 'used': used, 'state': now}
             else:
                 out.lines.append('T %d %d %d %s %s %d' % (
                     w, step['db'], step['s'], '-' if step['p'] is None else step['p'],
-                    step['out'], step['ns']))
+                    mout, step['ns']))
                 if args[2] == state_mod.REUSE_LAST_STATE_MARKER:
                     send = 'reuse'
                 elif args[0] is not None:
@@ -539,7 +567,7 @@ async def run_history(loop, spec, rng, source):
                                (send == 'schema' and args[1] == toks.obj[step['s']]))
                 if not well_formed:
                     send += '!malformed'
-                robs = {'send': send, 'res': res, 'used': used, 'state': now}
+                robs = {'send': send, 'res': res_cmp, 'used': used, 'state': now}
             out.real.append(robs)
             out.steps.append(step)
             ghost.feed(step)
@@ -561,7 +589,7 @@ async def run_history(loop, spec, rng, source):
                         if used[ix] != supplied[ix]:
                             cause = stale.get((w, sl), 'unknown')
                             st['U-violations'] = st.get('U-violations', 0) + 1
-                            if cause == 'unknown' or ghost.ok:
+                            if cause == 'unknown' or (ghost.ok and cause != 'unprocessed-request'):
                                 hk = hk or _hkey(out.steps)
                                 tag = 'under-noreturn' if ghost.ok else 'unknown-cause'
                                 fail(f'used-violated:{tag}:{hk}',
@@ -594,7 +622,7 @@ async def run_history(loop, spec, rng, source):
                 if root is not None and root != toks.cid(step['s']):
                     cause = stale.get((w, ('S', step['db'])), 'unknown')
                     st['U-violations'] = st.get('U-violations', 0) + 1
-                    if cause == 'unknown' or ghost.ok:
+                    if cause == 'unknown' or (ghost.ok and cause != 'unprocessed-request'):
                         fail(f'txroot-violated:{_hkey(out.steps)}', 'transaction root schema is not the '
                              'supplied one', {'root': root, 'supplied': toks.cid(step['s'])})
                     else:
@@ -623,14 +651,24 @@ async def run_history(loop, spec, rng, source):
                         stale.pop((j, sl), None)
                         continue
                     if (j, sl) in stale:
+                        if j == w and bt != pt and step['op'] == 'C' and step['out'] == 'req' \
+                                and res == 'unpickleErr':
+                            # an already lagging belief now jumps AHEAD: phantom acknowledgement
+                            stale[(j, sl)] = 'unprocessed-request'
                         continue
                     # newly broken by this request: who moved?
                     lag = (bt == pt)
                     sup = dict((k, t_) for k, t_ in Ghost.slots(step)).get(sl) if step['op'] == 'C' else None
                     cause = 'unknown'
+                    if j == w and not lag and step['op'] == 'C' and step['out'] == 'req' \
+                            and res == 'unpickleErr':
+                        cause = 'unprocessed-request'
                     if j == w and lag and step['op'] == 'C':
                         if res == 'syncFail':
                             cause = 'partial-sync'
+                        elif step['out'] in ('rux', 'cancel') and res in ('unpickleErr', 'cancelled') \
+                                and used is not None:
+                            cause = 'lost-reply'
                         elif res == 'serErr':
                             cause = 'unserializable-result'
                         elif res in ('ok', 'compErr', 'statePickleErr') and sup is not None \
@@ -641,6 +679,12 @@ async def run_history(loop, spec, rng, source):
                     if cause == 'unknown':
                         fail(f'belief-violated:{"lag" if lag else "ahead"}:{_hkey(out.steps)}',
                              'server believes the worker holds state it does not hold',
+                             {'worker': j, 'slot': sl, 'belief': bt, 'actual': ac})
+                    elif cause == 'unprocessed-request':
+                        fail('unprocessed-request-belief-ahead',
+                             'worker_proc.worker could not unpickle the request (nothing ran, in particular no '
+                             '__sync__), replied status 1 with that ordinary exception, and BaseWorker.call '
+                             'ran the acknowledgement callback: the server records a sync that never happened',
                              {'worker': j, 'slot': sl, 'belief': bt, 'actual': ac})
                     else:
                         fail(f'{cause}-stale-belief',
@@ -712,6 +756,14 @@ def witness_specs():
         ('status2_tx_root', dict(base), [C(1, 8, 20, 28, 'ok', 400), C(0, 12, 20, 28, 'unp', 404),
                                          T(0, 8, ['ret', 400], 'ok', 408)],
          {'unserializable-result-stale-belief', 'unserializable-result-wrong-root-schema-in-tx'}),
+        # --- a request the worker cannot unpickle is acknowledged (Props: …_counterexample_lost_request)
+        ('lost_request', dict(base), [C(0, 12, 20, 28, 'req', 400), C(0, 12, 20, 28, 'ok', 404)],
+         {'unprocessed-request-belief-ahead', 'unprocessed-request-wrong-state-used'}),
+        # --- the caller is cancelled in flight / the reply cannot be unpickled: like status 2
+        ('lost_reply_cancel', dict(base), [C(0, 12, 20, 28, 'cancel', 400), C(0, 8, 20, 28, 'ok', 404)],
+         {'lost-reply-stale-belief', 'lost-reply-wrong-state-used'}),
+        ('lost_reply_undecodable', dict(base), [C(0, 12, 20, 28, 'rux', 400), C(0, 8, 20, 28, 'ok', 404)],
+         {'lost-reply-stale-belief', 'lost-reply-wrong-state-used'}),
         # --- repaired (Props: …_repaired): must be served correctly now
         ('falsy', dict(base), [C(0, 8, 25, 28, 'ok', 400), C(0, 8, 20, 28, 'ok', 404)], set()),
         ('partial', dict(base), [C(0, 12, 20, 34, 'ok', 400), C(0, 8, 20, 28, 'ok', 404)], set()),
@@ -796,14 +848,14 @@ def compare(ctx, spec, out, model_lines, stats):
             if line.startswith('C'):
                 msent = tuple(None if x == '-' else ('BAD' if toks.bad(int(x)) else toks.cid(int(x)))
                               for x in f['sent'].split(','))
-                if msent != robs['sent']:
+                if robs['sent'] is not None and msent != robs['sent']:
                     diffs.append(f'sent: model {msent} real {robs["sent"]}')
                 if robs['cb'] is not None and (f['cb'] == '1') != robs['cb']:
                     diffs.append(f'callback: model {f["cb"]} real {robs["cb"]}')
                 mused = None if f['used'] == '-' else tuple(toks.cid(int(x)) for x in f['used'].split(','))
                 if mused != (None if robs['used'] is None else tuple(robs['used'])):
                     diffs.append(f'used: model {mused} real {robs["used"]}')
-                if f['res'] != robs['res']:
+                if robs['res'] is not None and f['res'] != robs['res']:
                     diffs.append(f'res: model {f["res"]} real {robs["res"]}')
             elif line.startswith('T'):
                 if f['send'] != robs['send']:
@@ -863,6 +915,7 @@ def run(ctx: core.Ctx):
     results_lmt = []
     from lib import c17churn
     churn_runs = []
+    scenario_runs = []
 
     def execute_mt(spec, source, stream):
         out = loop.run_until_complete(c17mt.run_history(loop, spec, source, this))
@@ -873,7 +926,9 @@ def run(ctx: core.Ctx):
         rp = json.load(open(ctx.replay))
         for f in rp['failures']:
             h = f.get('detail', {}).get('history') if isinstance(f.get('detail'), dict) else None
-            if h and h.get('churn'):
+            if h and h.get('scenario') == 'sync_lock':
+                scenario_runs.append(loop.run_until_complete(c17mt.sync_lock_scenario(loop, this)))
+            elif h and h.get('churn'):
                 churn_runs.append((h['churn'], *loop.run_until_complete(c17churn.run(loop, h['churn'], this))))
             elif h and h.get('lmt'):
                 results_lmt.append((h['spec'], loop.run_until_complete(
@@ -894,6 +949,33 @@ def run(ctx: core.Ctx):
         ctx.log(f'churn: {sum(r[1]["steps"] for r in churn_runs)} steps, '
                 f'{sum(r[1]["address_reuse_events"] for r in churn_runs)} address reuse events '
                 f'in {time.time() - t5:.1f}s')
+        # 0b. corpus/C17/*.json: concrete histories of earlier findings and seeds (root-cause witnesses)
+        cdir = os.path.join(core.VERIF, 'corpus', 'C17')
+        n_corpus = 0
+        for fn in sorted(os.listdir(cdir)) if os.path.isdir(cdir) else []:
+            if not fn.endswith('.json'):
+                continue
+            ce = json.load(open(os.path.join(cdir, fn)))
+            n_corpus += 1
+            if ce['stream'] == 'st':
+                got = {k for k, _, _ in execute(ce['spec'], ce['steps'], 'corpus').fails}
+            elif ce['stream'] == 'mt':
+                got = {k for k, _, _ in execute_mt(ce['spec'], ce['steps'], 'corpus-mt').fails}
+            elif ce['stream'] == 'lmt':
+                lo = loop.run_until_complete(c17mt.run_local_history(loop, ce['spec'], ce['steps'], this))
+                results_lmt.append((ce['spec'], lo, 'corpus-lmt'))
+                got = {k for k, _, _ in lo.fails}
+            elif ce['stream'] == 'scenario':
+                sf, sd = loop.run_until_complete(c17mt.sync_lock_scenario(loop, this))
+                scenario_runs.append((sf, sd))
+                got = {k for k, _, _ in sf}
+            else:
+                raise core.Infra(f'corpus/C17/{fn}: unknown stream {ce["stream"]}')
+            if not set(ce['expect']) <= got:
+                ctx.fail(f'witness-not-reproduced:corpus-{fn[:-5]}',
+                         'a corpus history no longer shows the recorded behaviour on the real code (fixed? then '
+                         'update the corpus entry and the model)',
+                         {'expected': ce['expect'], 'got': sorted(got)}, no_input=True)
         # 1. the counter-histories proved in Lean, replayed on the real code
         for name, spec, steps, expect in witness_specs():
             out = execute(spec, steps, 'witness')
@@ -974,6 +1056,24 @@ def run(ctx: core.Ctx):
             ctx.fail('witness-not-reproduced:lmt-eviction', 'the MultiTenantPool eviction history does not '
                      'fail on the real code any more', {'expected': sorted(lexpect),
                                                         'got': sorted(k for k, _, _ in lout.fails)}, no_input=True)
+        # 7. concurrent requests of one client on the remote path (scripted scenario)
+        sfails, sdetail = loop.run_until_complete(c17mt.sync_lock_scenario(loop, this))
+        scenario_runs.append((sfails, sdetail))
+        sexpect = {'remote-concurrent-request-compiled-against-newer-state',
+                   'remote-sync-lock-released-by-other-request'}
+        if not sexpect <= {k for k, _, _ in sfails}:
+            ctx.fail('witness-not-reproduced:scenario-sync-lock', 'the concurrent RemotePool scenario does not '
+                     'fail on the real code any more', {'expected': sorted(sexpect),
+                                                        'got': sorted(k for k, _, _ in sfails),
+                                                        'detail': sdetail}, no_input=True)
+        dspec, dsteps, dexpect = c17mt.local_witness_drop()
+        dout = loop.run_until_complete(c17mt.run_local_history(loop, dspec, dsteps, this))
+        results_lmt.append((dspec, dout, 'lmt-witness'))
+        if not dexpect <= {k for k, _, _ in dout.fails} or dout.stats.get('L:syncFail', 0) != 2:
+            ctx.fail('witness-not-reproduced:lmt-drop-tenant', 'drop_tenant(X) followed by requests of X does '
+                     'not fail on the real code any more', {'expected': sorted(dexpect),
+                                                            'got': sorted(k for k, _, _ in dout.fails),
+                                                            'stats': dout.stats}, no_input=True)
         for i in range(ctx.budget(300, 3000)):
             rng = ctx.rng
             regime = ('clean', 'noreturn', 'wild')[i % 3]
@@ -982,7 +1082,7 @@ def run(ctx: core.Ctx):
             gen = c17mt.GenMT(rng, toks, regime, nw, rng.choice([2, 3]), rng.choice([1, 2]))
             gen.init()
             spec = {'nworkers': nw, 'cache_size': rng.choice([1, 2]), 'regime': regime, 'lmt': True,
-                    'len': rng.choice([5, 15, 30, 50])}
+                    'drops': True, 'len': rng.choice([5, 15, 30, 50])}
             results_lmt.append((spec, loop.run_until_complete(
                 c17mt.run_local_history(loop, spec, gen, this)), 'lmt-random:' + regime))
         ctx.log(f'remote path: {n_mt} random + {n_mx} exhaustive histories on the three-tier rig '
@@ -1095,6 +1195,9 @@ def run(ctx: core.Ctx):
     for params, _stats, fails in churn_runs:
         for key, what, detail in fails:
             ctx.fail(key, what, dict(detail, history={'churn': params}))
+    for sfails, _sdetail in scenario_runs:
+        for key, what, detail in sfails:
+            ctx.fail(key, what, detail)
     if not proved:
         ctx.proof_broken_verdict()
 
@@ -1105,6 +1208,7 @@ def run(ctx: core.Ctx):
         'evaluations': len(results) + len(results_mt) + len(results_lmt),
         'requests': n_req + mt_req + lmt_req,
         'address_reuse_events': churn_cov['address_reuse_events'],
+        'concurrency_scenarios': [d for _f, d in scenario_runs],
         'churn': churn_cov,
         'multitenant_pool_in_process': {
             'histories': len(results_lmt), 'requests': lmt_req, 'histogram': lmt_stats,
@@ -1138,6 +1242,7 @@ def run(ctx: core.Ctx):
         'history_length_histogram': {str(k): v for k, v in sorted(lens.items())},
         'request_outcome_histogram': {k: v for k, v in sorted(stats.items()) if ':' in k},
         'oracle_violation_counts': {k: v for k, v in stats.items() if k.endswith('-violations')},
+        'none_state_requests_reaching_compiler': stats.get('none-state-requests-reaching-compiler', 0),
         'oracle_keys_hit': keys_hit,
         'histories_satisfying_NoReturn': regimes.get('noreturn-holds', 0),
         'disagreements_model_vs_impl': n_dis,
@@ -1149,8 +1254,9 @@ def run(ctx: core.Ctx):
                           'every request',
     })
     ctx.assumptions += [
-        'requests are executed one at a time (no two requests in flight); which worker serves is either '
-        'forced (the others look busy) or left to the real WorkerQueue and then read back',
+        'requests are executed one at a time (no two requests in flight) in the model and in every stream '
+        'except the scripted RemotePool scenario `sync_lock`; which worker serves is either forced (the '
+        'others look busy) or left to the real WorkerQueue and then read back',
         'callers never pass None for one of the five parts; init args are unpicklable-free; a compile_in_tx '
         'request passes its pickled state (dbview invariant) - requests passing None are executed and '
         'compared with the model but exempt from oracle X',
